@@ -85,6 +85,14 @@ def run(ck):
                             "abnormal": s["abnormal"], "worker_starts": s["worker_starts"], "abnormal_not_reproduced_on_a_second_run": s.get("not_reproduced", 0)}
     for f in (cf, ev):
         os.remove(f)
+    # temp_file / temp_dir of the SDK leave their results under the system temp directory: remove the ones this run made
+    import glob, shutil
+    for f in glob.glob("/tmp/fsio_*"):
+        try:
+            if os.path.getmtime(f) >= ck.t0 - 1:
+                shutil.rmtree(f) if os.path.isdir(f) else os.remove(f)
+        except OSError:
+            pass
     ck.cmds.append("vh c07-names; tlc C07_A.cfg C07_MC.tla; tlc C07_Seq.tla; vh c07-run (worker subprocesses); tlc C07_Trace.tla")
     ck.assumptions += ["excluded as in the property: read, sleep, exec, spawn, watchdog, exit/quit, http_client, wget, ftp_*",
                        "allocation proportional to a valid huge number (random_text 2^63) is outside the domain",
